@@ -1,4 +1,5 @@
 import SR.Proofs.Checker.Eventually
+import SR.Proofs.Checker.Sim
 /-!
 # C11 — eventually-properties: never a false alarm, exact on forests
 
@@ -28,5 +29,24 @@ theorem C11_no_false_alarm (cs : List Choice) (i : Nat) (pr : Prop' σ) (hpr : P
   have h1 := ((sinv_run (P := P) cs).disc e he).1
   have h2 := (einv_run (P := P) cs).disc e he pr hpr hexp
   exact ⟨e.2, h1, h2.1, h2.2⟩
+
+/-- a maximal in-boundary path for the simulation checker: terminal, or looping forever (a lasso) -/
+def MaxPathAvoidingSim (pr : Prop' σ) (p : List σ) : Prop :=
+  P.M.IsPath p ∧ (∀ t ∈ p, pr.cond t = false) ∧
+    ((∃ s, p.getLast? = some s ∧ P.M.succB s = []) ∨ Sim.CyclesBack P p)
+
+/-- **No false alarm, simulation** (full strength on the repaired code, defect F5): every chooser, every seed,
+    every number of traces. -/
+theorem C11_sim_no_false_alarm
+    (hkc : ∀ a b, P.M.Reach a → P.M.Reach b → P.key a = P.key b → ∀ pr ∈ P.props, pr.cond a = pr.cond b)
+    (fuel n : Nat) (answers : List Nat) (i : Nat) (pr : Prop' σ) (hpr : P.props[i]? = some pr)
+    (hexp : pr.exp = .eventually) (hd : hasDisc (Sim.runTraces P fuel n answers {}).disc i = true) :
+    ∃ p, MaxPathAvoidingSim P pr p := by
+  unfold hasDisc at hd
+  obtain ⟨e, he, hei⟩ := List.any_eq_true.1 hd
+  have hei : e.1 = i := by simpa using hei
+  subst hei
+  have h := Sim.runTraces_ok (P := P) hkc fuel n answers {} (by intro e he; simp at he) e he
+  exact ⟨e.2, h.path, (h.ev pr hpr hexp).1, (h.ev pr hpr hexp).2⟩
 
 end SR.C11
